@@ -24,37 +24,55 @@ def matrix_is_complex(A):
         return np.iscomplexobj(A)
 
 
+_RTOL = 1e-8  # Relative tolerance of the checks below, which makes them independent of the scaling (units) of the matrix
+
+
+def _equal_to_mirror(A, B):
+    """ Checks if A equals its mirror image B (A.T or A.T.conj()): the difference of each pair of entries must be
+    negligible with respect to the largest entries in their rows """
+    if matrix_is_sparse(A):
+        A = sps.csr_matrix(A)
+        D = sps.coo_matrix(abs(A - sps.csr_matrix(B)))
+        scale = abs(A).max(axis=1).toarray().flatten()
+        return np.all(D.data <= _RTOL * np.minimum(scale[D.row], scale[D.col]))
+    else:
+        A, B = np.asarray(A), np.asarray(B)
+        scale = abs(A).max(axis=1) if A.size > 0 else np.zeros(A.shape[0])
+        return np.all(abs(A - B) <= _RTOL * np.minimum.outer(scale, scale))
+
+
 def matrix_is_diagonal(A):
-    """ Checks if the matrix is diagonal"""
+    """ Checks if the matrix is diagonal: off-diagonal entries are negligible with respect to the diagonal entries of
+    their row and column """
     if matrix_is_sparse(A):
         if isinstance(A, sps.dia_matrix):
             return len(A.offsets) == 1 and A.offsets[0] == 0
         else:
-            return np.allclose((A - sps.spdiags(A.diagonal(), 0, *A.shape)).data, 0.0)
+            Acoo, d = sps.coo_matrix(A), abs(A.diagonal())
+            off = Acoo.row != Acoo.col
+            return np.all(abs(Acoo.data[off]) <= _RTOL * np.minimum(d[Acoo.row[off]], d[Acoo.col[off]]))
     elif is_cvxopt_spmatrix(A):
         return max(abs(A.I - A.J)) == 0
     else:
-        return np.allclose(A, np.diag(np.diag(A)))
+        A = np.asarray(A)
+        d = abs(np.diag(A))
+        return np.all(abs(A - np.diag(np.diag(A))) <= _RTOL * np.minimum.outer(d, d))
 
 
 def matrix_is_symmetric(A):
     """ Checks whether a matrix is numerically symmetric """
-    if matrix_is_sparse(A):
-        return np.allclose((A-A.T).data, 0)
-    elif is_cvxopt_spmatrix(A):
+    if is_cvxopt_spmatrix(A):
         return np.isclose(max(abs(A-A.T)), 0.0)
     else:
-        return np.allclose(A, A.T)
+        return _equal_to_mirror(A, A.T)
 
 
 def matrix_is_hermitian(A):
     """ Checks whether a matrix is numerically Hermitian """
     if matrix_is_complex(A):
-        if matrix_is_sparse(A):
-            return np.allclose((A-A.T.conj()).data, 0)
-        elif is_cvxopt_spmatrix(A):
+        if is_cvxopt_spmatrix(A):
             return np.isclose(max(abs(A-A.ctrans())), 0.0)
         else:
-            return np.allclose(A, A.T.conj())
+            return _equal_to_mirror(A, A.T.conj())
     else:
         return matrix_is_symmetric(A)
